@@ -40,10 +40,10 @@ PAIRS = [(d, f) for d in range(6) for f in range(6)]
 @st.composite
 def _case(draw):
     if draw(st.booleans()):
-        case = draw(gen.rec_case(max_obj=5, max_sp=5, costs=None))
+        case = draw(gen.rec_case(max_obj=5, max_sp=5, costs=None, misleading=True))
         case["_kind"] = "oracle"
     else:
-        case = draw(gen.rec_case(max_obj=10, max_sp=8, min_obj=2, costs=None))
+        case = draw(gen.rec_case(max_obj=10, max_sp=8, min_obj=2, costs=None, misleading=True))
         case["_kind"] = "thl"
         case["_pairs"] = [[draw(st.integers(0, 5)), draw(st.integers(0, 5))] for _ in range(3)]
     case["_unnamed"] = draw(st.booleans())
@@ -129,7 +129,8 @@ def check(case):
     base["costs"] = {"SPECIATION": 0, "DUPLICATION": 1, "HORIZONTAL_TRANSFER": INF, "FULL_LOSS": 1, "SEGMENTAL_LOSS": 1}
     inst = Instance(base)
     unnamed = bool(case.get("_unnamed"))
-    leaflike = bool(case.get("_leaflike")) and not unnamed
+    honest = all(leaf.rsplit("_", 1)[0] == sp for leaf, sp in base["leaf_object_species"].items())
+    leaflike = bool(case.get("_leaflike")) and not unnamed and honest
     given = _strip_ancestor_names(base) if unnamed else base
     if leaflike:
         # ancestral objects named like leaves of some species ("<species>_<n>", any letter case) and the leaf
